@@ -6,7 +6,7 @@ Open Scope N_scope.
 
 Definition plain_ctor : ctor_args :=
   {| a_eph := TNone; a_hsdir := false; a_auth := ANone; a_stealth_kw := false; a_key := KNone; a_ver := VNone; a_single := TNone |}.
-Definition cfg_of (r : route) : cfg := {| g_route := r; g_pub := 80; g_bound := 45017; g_pending := false; g_bind_ok := true |}.
+Definition cfg_of (r : route) : cfg := {| g_route := r; g_pub := 80; g_bound := 45017; g_pending := false; g_bind_ok := true; g_two_clients := false |}.
 
 (* ---- regression anchors: the witnesses of the repaired findings C17-F1 (64ae05b) and C17-F2 (d08dcab) ---- *)
 Definition refused_only : list lrec := [{| l_evs := [ORefused]; l_open := 0 |}].
@@ -45,8 +45,8 @@ Lemma fail_now_facts k w : p_ph (fst (fail_now k w)) = POver false /\ p_open (fs
                            /\ p_port (fst (fail_now k w)) = false.
 Proof. cbn. auto. Qed.
 
-Lemma on_done_noleak s m' evs s' out :
-  on_done s m' evs = (s', out) -> p_ph s <> POver false ->
+Lemma on_done_noleak hok s m' evs s' out :
+  on_done hok s m' evs = (s', out) -> p_ph s <> POver false ->
   Kinv s' /\ (has_failure out = true -> p_ph s' = POver false).
 Proof.
   unfold on_done. intros H Hs. destruct (dones evs) as [|[h| | |k] rest]; inversion H; subst; clear H; unfold Kinv; cbn;
@@ -65,12 +65,12 @@ Proof.
       inversion H; subst; unfold Kinv; cbn; repeat split; intros; try discriminate; auto.
   - destruct o as [| | |d| |]; try (inversion H; subst; unfold Kinv; cbn; rewrite ?Ph; repeat split; intros; try discriminate; auto; fail).
     + (* HS_DESC / answer *)
-      assert (G : forall m' e15, on_done s m' e15 = (s', evs) ->
+      assert (G : forall hok m' e15, on_done hok s m' e15 = (s', evs) ->
                   Kinv s' /\ (has_failure evs = true -> p_ph s' = POver false) /\ (PCreate m = POver false -> p_ph s' = POver false)).
-      { intros m' e15 E. apply on_done_noleak in E; [|rewrite Ph; discriminate]. destruct E as [E1 E2].
+      { intros hok m' e15 E. apply on_done_noleak in E; [|rewrite Ph; discriminate]. destruct E as [E1 E2].
         refine (conj E1 (conj E2 _)). intros X. discriminate X. }
       destruct d as [k a dd| |]; destruct (m_rep m) eqn:R;
-        try (destruct (DescUpload.step c15cfg m _) as [m' e15] eqn:E; exact (G _ _ H));
+        try (destruct (DescUpload.step c15cfg m _) as [m' e15] eqn:E; exact (G _ _ _ H));
         inversion H; subst; unfold Kinv; cbn; rewrite ?Ph; repeat split; intros; try discriminate; auto.
     + destruct (m_rep m); inversion H; subst; unfold Kinv; cbn; rewrite ?Ph; repeat split; intros; try discriminate; auto.
   - assert (Same : forall out, has_failure out = false ->
@@ -134,7 +134,7 @@ Proof.
     rewrite (proj2 (Nat.leb_le _ _) Hl), (proj2 (Nat.leb_le _ _) Hc); reflexivity.
 Qed.
 
-Lemma on_done_quiet s m' e15 s' out : on_done s m' e15 = (s', out) -> quiet out = true /\ p_ph s' <> PCfg.
+Lemma on_done_quiet hok s m' e15 s' out : on_done hok s m' e15 = (s', out) -> quiet out = true /\ p_ph s' <> PCfg.
 Proof.
   unfold on_done. destruct (dones e15) as [|[h| | |k] rest]; intros H; inversion H; subst; cbn; split; auto; discriminate.
 Qed.
@@ -204,9 +204,11 @@ Qed.
 (* listen() fires exactly where create() fires, with the corresponding outcome (composition   *)
 (* with C15): every configuration, every history of events and answers                         *)
 (* ====================================================================================== *)
-Definition res15 (r : lrec) : list Spec.C15.result := map to15 (results (l_evs r)).
-Definition dones15 (r : Spec.C15.rec) : list Spec.C15.result :=
-  map (fun d => match d with ROk _ => ROk true | ROther _ => ROther 0 | x => x end) (dones (r_evs r)).
+(* outcomes compared up to the detail flags of Ok (whether the address is reported is C17's own clause) *)
+Definition norm15 (d : Spec.C15.result) : Spec.C15.result :=
+  match d with ROk _ => ROk true | ROther _ => ROther 0 | x => x end.
+Definition res15 (r : lrec) : list Spec.C15.result := map (fun x => norm15 (to15 x)) (results (l_evs r)).
+Definition dones15 (r : Spec.C15.rec) : list Spec.C15.result := map norm15 (dones (r_evs r)).
 
 Lemma all_quiet_after c ops : forall m, J m -> m_created m = true ->
   map dones15 (run_from c m ops) = map (fun _ => []) ops.
@@ -231,7 +233,7 @@ Qed.
 Lemma lstep_desc c q m op pp oo o m' evs :
   step c15cfg m o = (m', evs) ->
   let s0 := {| p_ph := PCreate m; p_open := op; p_port := pp; p_oos := oo |} in
-  lstep_model c q s0 (LDesc o) = on_done s0 m' evs
+  lstep_model c q s0 (LDesc o) = on_done (host_reported c q) s0 m' evs
   \/ (lstep_model c q s0 (LDesc o) = ({| p_ph := PCreate m'; p_open := op; p_port := pp; p_oos := oo |}, [ONoop])
       /\ evs = [] /\ m_created m' = m_created m).
 Proof.
@@ -294,8 +296,8 @@ Definition refused_ok (r : route) : bool :=
 Lemma refused_ok_all r : refused_ok r = true.
 Proof. destruct r as [a|t|s]; all_fields; vm_compute; reflexivity. Qed.
 
-Lemma invalid_refused_early r pub bound pend bind ops :
-  let c := {| g_route := r; g_pub := pub; g_bound := bound; g_pending := pend; g_bind_ok := bind |} in
+Lemma invalid_refused_early r pub bound pend bind two ops :
+  let c := {| g_route := r; g_pub := pub; g_bound := bound; g_pending := pend; g_bind_ok := bind; g_two_clients := two |} in
   valid c = false -> lrun c ops = [{| l_evs := [ORefused]; l_open := 0 |}].
 Proof.
   intros c Hv. pose proof (refused_ok_all r) as H. unfold refused_ok in H.
@@ -332,26 +334,49 @@ Definition fault_scripts : list (list lop) :=
     [ev15 KUpload 2 1; LDesc Reply; ev15 KUpload 1 1; ev15 KFailed 2 1; ev15 KUpload 1 2; ev15 KFailed 1 1];
     [LDesc Reply; LStop] ].
 
-Definition known_finding (c : cfg) (ops : list lop) : bool := disconnect_while_waiting c ops.
+Definition known_finding (c : cfg) (ops : list lop) : bool := disconnect_while_waiting c ops || stealth_several_clients c.
 
 Definition product_ok (r : route) : bool :=
-  forallb (fun pend => forallb (fun bind => forallb (fun ops =>
-    let c := {| g_route := r; g_pub := 80; g_bound := 45017; g_pending := pend; g_bind_ok := bind |} in
+  forallb (fun two => forallb (fun pend => forallb (fun bind => forallb (fun ops =>
+    let c := {| g_route := r; g_pub := 80; g_bound := 45017; g_pending := pend; g_bind_ok := bind;
+                g_two_clients := two |} in
     negb (wf c ops) || known_finding c ops || oracle c ops (lrun c ops))
-    fault_scripts) [false; true]) [false; true].
+    fault_scripts) [false; true]) [false; true]) [false; true].
 
 Lemma product_ok_all r : product_ok r = true.
 Proof. destruct r as [a|t|s]; all_fields; vm_compute; reflexivity. Qed.
 
-Lemma oracle_on_product r pend bind ops :
+Lemma oracle_on_product r pend bind two ops :
   In ops fault_scripts ->
-  let c := {| g_route := r; g_pub := 80; g_bound := 45017; g_pending := pend; g_bind_ok := bind |} in
-  wf c ops = true -> disconnect_while_waiting c ops = false ->
+  let c := {| g_route := r; g_pub := 80; g_bound := 45017; g_pending := pend; g_bind_ok := bind; g_two_clients := two |} in
+  wf c ops = true -> disconnect_while_waiting c ops = false -> stealth_several_clients c = false ->
   oracle c ops (lrun c ops) = true.
 Proof.
-  intros Hin c Hw H3. pose proof (product_ok_all r) as H. unfold product_ok in H.
-  rewrite forallb_forall in H. assert (Hp : In pend [false; true]) by (destruct pend; cbn; auto).
-  specialize (H pend Hp). rewrite forallb_forall in H. assert (Hb : In bind [false; true]) by (destruct bind; cbn; auto).
-  specialize (H bind Hb). rewrite forallb_forall in H. specialize (H ops Hin). cbn beta zeta in H.
-  fold c in H. unfold known_finding in H. rewrite Hw, H3 in H. exact H.
+  intros Hin c Hw H3 H4. pose proof (product_ok_all r) as H. unfold product_ok in H.
+  assert (Hb2 : forall b : bool, In b [false; true]) by (intros []; cbn; auto).
+  rewrite forallb_forall in H. specialize (H two (Hb2 two)).
+  rewrite forallb_forall in H. specialize (H pend (Hb2 pend)).
+  rewrite forallb_forall in H. specialize (H bind (Hb2 bind)).
+  rewrite forallb_forall in H. specialize (H ops Hin). cbn beta zeta in H.
+  fold c in H. unfold known_finding in H. rewrite Hw, H3, H4 in H. exact H.
 Qed.
+
+Lemma stealth_two_clients_refuted :
+  exists c ops, wf c ops = true /\ disconnect_while_waiting c ops = false /\ oracle c ops (lrun c ops) = false.
+Proof.
+  exists {| g_route := RCtor {| a_eph := TNone; a_hsdir := true; a_auth := AStealth; a_stealth_kw := false;
+                                a_key := KNone; a_ver := V2; a_single := TNone |};
+            g_pub := 80; g_bound := 45017; g_pending := false; g_bind_ok := true; g_two_clients := true |},
+         [LDesc Reply; LDesc (Ev KUpload 1 1); LDesc (Ev KUploaded 1 1)].
+  vm_compute. auto.
+Qed.
+
+(* basic authentication with two clients: they share the one hostname, which the address reports *)
+Lemma basic_two_clients_reported :
+  let c := {| g_route := RCtor {| a_eph := TNone; a_hsdir := false; a_auth := ABasic; a_stealth_kw := false;
+                                  a_key := KNone; a_ver := V2; a_single := TNone |};
+              g_pub := 80; g_bound := 45017; g_pending := false; g_bind_ok := true; g_two_clients := true |} in
+  let ops := [LDesc Reply; LDesc (Ev KUpload 1 1); LDesc (Ev KUploaded 1 1)] in
+  oracle c ops (lrun c ops) = true
+  /\ flat_map (fun r => results (l_evs r)) (lrun c ops) = [LOk true true true].
+Proof. vm_compute. auto. Qed.
